@@ -117,6 +117,24 @@ func rejectingReturns(fn *ssa.Function, sp rejectSpec) []*ssa.Return {
 // called: the result of an unexported module function is `call:<pkg>.?` whatever its name and arguments. (The
 // reason then says "index found by a helper is negative", not which helper.)
 func canonReason(d string) string {
+	// a sorted list of a map's keys is a locally built key list however it is built
+	for {
+		i := strings.Index(d, "call:slices.Sorted(call:maps.Keys(")
+		if i < 0 {
+			break
+		}
+		j := i + len("call:slices.Sorted(call:maps.Keys(")
+		depth := 2
+		for j < len(d) && depth > 0 {
+			if d[j] == '(' {
+				depth++
+			} else if d[j] == ')' {
+				depth--
+			}
+			j++
+		}
+		d = d[:i] + "makeslice" + d[j:]
+	}
 	var sb strings.Builder
 	for i := 0; i < len(d); {
 		if !strings.HasPrefix(d[i:], "call:") {
